@@ -1,7 +1,7 @@
 (** * C07 - a violation always surfaces as the contract's error with the true condition text.
     Property theorems only. *)
 From Coq Require Import List String ZArith Bool.
-From ICV Require Import Expr PyPrims Message ExprCase ExprRefine ExprCorollaries MessageProofs.
+From ICV Require Import Expr PyPrims Message ExprCase ExprRefine ExprCorollaries ExprRange ExprSound MessageProofs.
 Import ListNotations.
 Open Scope string_scope.
 Open Scope list_scope.
@@ -22,6 +22,18 @@ Theorem C07_no_extra_evaluation_partial (P : prims) :
   simple e = true -> ev P 0 e (m, []) = Ok (v, (m', l)) ->
   rc P 0 e (up m, []) = Ok (x, (rm, rl)) -> In (i, w) rl -> In (i, w) l.
 Proof. exact (recorded_is_computed P). Qed.
+
+(** the same for *all* conditions - comprehensions, generator expressions and all(<generator>) included, every data
+    model: outside comprehension scopes the re-evaluator evaluates nothing that Python did not evaluate (no operand
+    that Python's short-circuiting skipped), whenever it returns *)
+Theorem C07_no_extra_evaluation (P : prims) :
+  forall e, wf e = true ->
+  forall m v m' l x mr lr i w,
+  ev P 0 e (m, []) = Ok (v, (m', l)) -> rc P 0 e (up m, []) = Ok (x, (mr, lr)) ->
+  In (i, w) lr -> inner_of e i = false ->
+  exists w', In (i, w') l /\ (w = w' \/ exists y inp, w = VAllFail y inp).
+Proof. exact (recorded_was_evaluated P). Qed.
+Print Assumptions C07_no_extra_evaluation.
 
 (** the message: location, description, condition text, then the value lines *)
 Theorem C07_message_shape R loc desc text ls :
